@@ -57,7 +57,7 @@ func (e *exprState) render(v ssa.Value, fr *exprFrame, depth int) string {
 		if fr != nil && fr.fn == x.Parent() && idx >= 0 && idx < len(fr.args) {
 			return e.render(fr.args[idx], fr.parent, depth+1)
 		}
-		return "$" + x.Name()
+		return fmt.Sprintf("$p%d", idx)
 	case *ssa.Phi:
 		var parts []string
 		for _, ed := range x.Edges {
@@ -75,6 +75,7 @@ func (e *exprState) render(v ssa.Value, fr *exprFrame, depth int) string {
 					if vs := singleFieldStore(a, path); vs != nil {
 						return e.render(vs, fr, depth+1)
 					}
+					return "local:" + a.Comment + "." + strings.Join(path, ".")
 				}
 				return "field:" + typeLabel(rt) + "." + strings.Join(path, ".")
 			}
@@ -115,6 +116,17 @@ func (e *exprState) render(v ssa.Value, fr *exprFrame, depth int) string {
 		return e.call(x, 0, fr, depth)
 	case *ssa.Global:
 		return "global:" + x.Name()
+	case *ssa.Slice:
+		if a, ok := x.X.(*ssa.Alloc); ok {
+			if elems, ok := arrayLitElems(a); ok && len(elems) > 0 {
+				var parts []string
+				for i := int64(0); i < int64(len(elems)); i++ {
+					parts = append(parts, e.render(elems[i], fr, depth+1))
+				}
+				return "[" + strings.Join(parts, ",") + "]"
+			}
+		}
+		return e.render(x.X, fr, depth+1) + "[:]"
 	case *ssa.IndexAddr:
 		return e.render(x.X, fr, depth+1) + "[]"
 	case *ssa.Index:
@@ -128,6 +140,12 @@ func (e *exprState) render(v ssa.Value, fr *exprFrame, depth int) string {
 func singleFieldStore(a *ssa.Alloc, path []string) ssa.Value {
 	if len(path) != 1 {
 		return nil
+	}
+	// whole-value stores into the local make the field multi-assigned
+	for _, r := range *a.Referrers() {
+		if s, ok := r.(*ssa.Store); ok && s.Addr == ssa.Value(a) {
+			return nil
+		}
 	}
 	vs := FieldStores(a)[path[0]]
 	if len(vs) == 1 {
